@@ -42,12 +42,17 @@ THEOREMS = [
 def run_case(ck: Check, case: dict):
     gd = graphs.GDef.from_json(case["gd"])
     cfg, maxd = case["cfg"], case["max_diameter"]
-    ctx = algos.Ctx(ck, gd, cfg, cap=600)
+    xstarts = [list(x) for x in (case.get("starts") or [])]
+    ctx = algos.Ctx(ck, gd, cfg, cap=600, extra_states=xstarts)
     if not ctx.ok:
         ck.count("skipped:" + ctx.reason.split(":")[0])
         return
     g = ctx.g
     kw = {"return_all_edges": True, "return_all_hashes": True, "max_layer_size_to_store": None}
+    if xstarts:
+        # several start states, one of them listed twice: layer 0 is the SET of start states
+        kw["start_states"] = [list(gd.central)] + xstarts + [xstarts[0]]
+        ck.count("multi-start")
     if maxd is not None:
         kw["max_diameter"] = maxd
     st, r = algos.call(g.bfs, **kw)
@@ -58,7 +63,7 @@ def run_case(ck: Check, case: dict):
     if st != "ok":
         ck.violation("C08/bfs-error", "BFS with edges raised: " + r, rep)
         return
-    layers = ctx.layers  # Spec distance classes (packed)
+    layers = ctx.layers if not xstarts else ctx.spec_layers([gd.pack(gd.central)] + [gd.pack(x) for x in xstarts])  # Spec distance classes (packed)
     completed = maxd is None or maxd >= len(layers)
     ck.count("completed" if completed else "early-stopped")
     if bool(r.bfs_completed) != completed:
@@ -198,7 +203,8 @@ def run_case(ck: Check, case: dict):
             ck.violation("C08/unstable-export", f"{nm} changed after other exports of the same result were requested", dict(rep, export=nm))
             return
     # model: same BFS with the implementation's hashes -> same numbering and edge list
-    m = ctx.drv.ask(f"export {maxd if maxd is not None else 1000000} ; {gd.pack(gd.central)}")
+    start_packed = [gd.pack(gd.central)] + [gd.pack(x) for x in xstarts] + ([gd.pack(xstarts[0])] if xstarts else [])
+    m = ctx.drv.ask(f"export {maxd if maxd is not None else 1000000} ; {' '.join(map(str, start_packed))}")
     mc, ms, me = [x.strip() for x in m.split(";")]
     if ms == "none" or me == "none":
         ck.correspondence_break("export model returns none where the implementation exports", dict(rep, model=m[:100]))
@@ -206,7 +212,7 @@ def run_case(ck: Check, case: dict):
     mrows = [int(x) for x in ms.split()]
     medges = Counter(tuple(int(y) for y in e.split(",")) for e in me.split())
     if mrows != rows or (mc == "1") != completed:
-        ck.correspondence_break("export: model and implementation number the vertices differently", rep)
+        ck.correspondence_break("export: model and implementation number the vertices differently", dict(rep, model_rows=mrows[:20], impl_rows=rows[:20], model_completed=mc, completed=completed, asked=start_packed))
     elif medges != got:
         ck.correspondence_break("export: model and implementation edge lists differ", dict(rep, model_only=list((medges - got).items())[:5], impl_only=list((got - medges).items())[:5]))
     ev = graphs.drain_events()
@@ -243,7 +249,16 @@ def gen_case(ck):
         cfg = graphs.gen_cfg(rng, gd)
         pre = [x for x in ["nx_undirected", "nx_directed", "adjacency_matrix", "adjacency_matrix_sparse", "edges_list", "vertex_names", "all_states"] if rng.random() < 0.4]
         rng.shuffle(pre)
-        return {"gd": gd.to_json(), "cfg": cfg, "max_diameter": maxd, "pre": pre, "via_file": rng.random() < (0.5 if gd.tag.startswith("deep") else 0.15)}
+        starts = None
+        if rng.random() < 0.25:
+            orbit = [list(x) for l in layers for x in l]   # brute_layers returns tuples
+            starts = [list(x) for x in rng.sample(orbit, min(len(orbit), rng.randint(1, 3)))]
+            lay2 = gd.brute_layers(starts=[tuple(gd.central)] + [tuple(x) for x in starts], cap=300 if not ck.thorough else 3000)
+            if lay2 is None or len(lay2) < 2:
+                starts = None
+            else:
+                maxd = None if maxd is None else rng.randint(1, len(lay2) - 1)
+        return {"gd": gd.to_json(), "cfg": cfg, "max_diameter": maxd, "pre": pre, "starts": starts, "via_file": rng.random() < (0.5 if gd.tag.startswith("deep") else 0.15)}
     raise RuntimeError("no case")
 
 
